@@ -136,18 +136,18 @@ RefItems(r) ==
             IF cut = 0 THEN r.tail ELSE "ItemsNotDefined",
             r.kcap)
 
-RefSort(r, key, rev) ==
+RefSort(r, key, rev, sfn) ==
   IF r.tail # "none" THEN RefRefuse("undef")
   ELSE IF key = "none" THEN
     IF r.kcap # "keys" THEN RefRefuse("must")
     ELSE IF ~NoDup(ElKeys(r.el)) THEN RefRefuse("undef")
-    ELSE LET Less(x, y) == IF rev THEN StrLess(y.k, x.k) ELSE StrLess(x.k, y.k)
+    ELSE LET Less(x, y) == IF rev THEN StrLessBy(sfn, y.k, x.k) ELSE StrLessBy(sfn, x.k, y.k)
          IN RefRec(StableSort(r.el, Less), "none", r.kcap)
   ELSE
     IF ~AllOk(r.el) THEN RefRefuse("must")
     ELSE \* the eager operation: sorted(zip(key values, count()), reverse=rev)
          LET prs == [j \in 1..Len(r.el) |-> <<KeyFn(key, r.el[j].v), j>>]
-             Lt(x, y) == x[1] < y[1] \/ (x[1] = y[1] /\ x[2] < y[2])
+             Lt(x, y) == IntLessBy(sfn, x[1], y[1]) \/ (x[1] = y[1] /\ x[2] < y[2])
              Less(x, y) == IF rev THEN Lt(y, x) ELSE Lt(x, y)
              srt == StableSort(prs, Less)
          IN RefRec([j \in 1..Len(srt) |-> r.el[srt[j][2]]], "none", r.kcap)
@@ -260,7 +260,7 @@ Ref(a) ==
         [] a.op = "shuffle" ->
              IF r.tail # "none" \/ Len(a.perm) # Len(r.el) THEN RefRefuse("undef")
              ELSE RefRec([j \in 1..Len(a.perm) |-> r.el[a.perm[j] + 1]], "none", r.kcap)
-        [] a.op = "sort"    -> RefSort(r, a.key, a.rev)
+        [] a.op = "sort"    -> RefSort(r, a.key, a.rev, Sfn(a))
         [] a.op \in {"split", "shard"} ->
              IF r.tail # "none" THEN RefRefuse("undef")
              ELSE IF a.sk < 1 \/ a.sk > Len(r.el) THEN RefRefuse("must")
